@@ -386,6 +386,10 @@ func (m *Encoder) encodeStruct(v reflect.Value) error {
 	if t == decimalType {
 		return m.encodeDecimal(v)
 	}
+	if t == bigIntType {
+		i := v.Interface().(big.Int)
+		return m.w.WriteBigInt(&i)
+	}
 
 	if err := m.w.BeginStruct(); err != nil {
 		return err
